@@ -5,13 +5,13 @@
 //@enum src/key.rs :: Operation derive: Clone Copy PartialEq Eq
 //@struct src/key.rs :: InternalKey keep: user_key sequence_number operation
 
-// A-derive (assumed): derived PartialEq on the field-less enum Operation is structural equality.
+// ASSUMED (A-derive): derived PartialEq on the field-less enum Operation is structural equality.
 impl PartialEqSpecImpl for Operation {
     open spec fn obeys_eq_spec() -> bool { true }
     open spec fn eq_spec(&self, other: &Self) -> bool { *self == *other }
 }
 
-// A-derive (assumed): #[derive(Clone, Eq)] on InternalKey.
+// ASSUMED (A-derive): #[derive(Clone, Eq)] on InternalKey returns an equal value.
 impl Clone for InternalKey {
     #[verifier::external_body]
     fn clone(&self) -> (r: Self)
@@ -20,17 +20,52 @@ impl Clone for InternalKey {
 }
 impl Eq for InternalKey {}
 
+/// Ghost view of an internal key.
+pub struct GKey { pub user: Seq<u8>, pub seq: u64, pub op: Operation }
+
+pub open spec fn gk(k: InternalKey) -> GKey {
+    GKey { user: k.user_key@, seq: k.sequence_number, op: k.operation }
+}
+
 /// Ghost order on internal keys: user key ascending, then sequence number DESCENDING.
 /// The operation tag does not take part (exactly the statement of C01's first mechanism).
-pub open spec fn ik_cmp(a: InternalKey, b: InternalKey) -> int {
-    let c = lex_cmp(a.user_key@, b.user_key@);
+pub open spec fn gk_cmp(a: GKey, b: GKey) -> int {
+    let c = lex_cmp(a.user, b.user);
     if c != 0 { c }
-    else if a.sequence_number > b.sequence_number { -1 }
-    else if a.sequence_number < b.sequence_number { 1 }
+    else if a.seq > b.seq { -1 }
+    else if a.seq < b.seq { 1 }
     else { 0 }
 }
+pub open spec fn gk_lt(a: GKey, b: GKey) -> bool { gk_cmp(a, b) < 0 }
+pub open spec fn gk_le(a: GKey, b: GKey) -> bool { gk_cmp(a, b) <= 0 }
+pub open spec fn ik_cmp(a: InternalKey, b: InternalKey) -> int { gk_cmp(gk(a), gk(b)) }
 pub open spec fn ik_lt(a: InternalKey, b: InternalKey) -> bool { ik_cmp(a, b) < 0 }
 pub open spec fn ik_le(a: InternalKey, b: InternalKey) -> bool { ik_cmp(a, b) <= 0 }
+
+pub proof fn lemma_gk_antisym(a: GKey, b: GKey)
+    ensures gk_cmp(a, b) == -gk_cmp(b, a)
+{
+    lemma_lex_antisym(a.user, b.user);
+}
+
+pub proof fn lemma_gk_trans(a: GKey, b: GKey, c: GKey)
+    requires gk_cmp(a, b) <= 0, gk_cmp(b, c) <= 0
+    ensures gk_cmp(a, c) <= 0, (gk_cmp(a, b) < 0 || gk_cmp(b, c) < 0) ==> gk_cmp(a, c) < 0
+{
+    lemma_lex_trans(a.user, b.user, c.user);
+    lemma_lex_antisym(a.user, b.user);
+    lemma_lex_antisym(b.user, c.user);
+    lemma_lex_antisym(a.user, c.user);
+    lemma_lex_eq(a.user, b.user);
+    lemma_lex_eq(b.user, c.user);
+    lemma_lex_eq(a.user, c.user);
+}
+
+pub proof fn lemma_gk_eq(a: GKey, b: GKey)
+    ensures (gk_cmp(a, b) == 0) <==> (a.user == b.user && a.seq == b.seq)
+{
+    lemma_lex_eq(a.user, b.user);
+}
 
 impl OrdSpecImpl for InternalKey {
     open spec fn obeys_cmp_spec() -> bool { true }
@@ -53,7 +88,7 @@ impl PartialEqSpecImpl for InternalKey {
 pub proof fn lemma_ik_antisym(a: InternalKey, b: InternalKey)
     ensures ik_cmp(a, b) == -ik_cmp(b, a)
 {
-    lemma_lex_antisym(a.user_key@, b.user_key@);
+    lemma_gk_antisym(gk(a), gk(b));
 }
 
 pub proof fn lemma_ik_range(a: InternalKey, b: InternalKey)
@@ -67,20 +102,37 @@ pub proof fn lemma_ik_trans(a: InternalKey, b: InternalKey, c: InternalKey)
     requires ik_cmp(a, b) <= 0, ik_cmp(b, c) <= 0
     ensures ik_cmp(a, c) <= 0, (ik_cmp(a, b) < 0 || ik_cmp(b, c) < 0) ==> ik_cmp(a, c) < 0
 {
-    lemma_lex_trans(a.user_key@, b.user_key@, c.user_key@);
-    lemma_lex_antisym(a.user_key@, b.user_key@);
-    lemma_lex_antisym(b.user_key@, c.user_key@);
-    lemma_lex_antisym(a.user_key@, c.user_key@);
-    lemma_lex_eq(a.user_key@, b.user_key@);
-    lemma_lex_eq(b.user_key@, c.user_key@);
-    lemma_lex_eq(a.user_key@, c.user_key@);
+    lemma_gk_trans(gk(a), gk(b), gk(c));
 }
 
 pub proof fn lemma_ik_eq(a: InternalKey, b: InternalKey)
     ensures (ik_cmp(a, b) == 0) <==> (a.user_key@ == b.user_key@ && a.sequence_number == b.sequence_number)
 {
-    lemma_lex_eq(a.user_key@, b.user_key@);
+    lemma_gk_eq(gk(a), gk(b));
 }
+
+//@impl src/key.rs :: impl InternalKey
+//@fn new props: C01 C13
+//@sig
+    ensures r.user_key == user_key, r.sequence_number == sequence_number, r.operation == operation,
+//@endfn
+//@fn new_for_seeking props: C01 C03 C13
+//@sig
+    ensures r.user_key == user_key, r.sequence_number == sequence_number, r.operation == Operation::Put, // [seek-key]
+//@endfn
+//@fn get_user_key props: C01 C13
+//@sig
+    ensures r@ == self.user_key@,
+//@endfn
+//@fn get_operation props: C01 C13
+//@sig
+    ensures r == self.operation,
+//@endfn
+//@fn get_sequence_number props: C01 C03
+//@sig
+    ensures r == self.sequence_number,
+//@endfn
+//@endimpl
 
 //@impl src/key.rs :: impl Ord for InternalKey
 //@fn cmp props: C01 C04 C13
@@ -105,3 +157,17 @@ pub proof fn lemma_ik_eq(a: InternalKey, b: InternalKey)
         broadcast use group_bytes_order;
 //@endfn
 //@endimpl
+
+pub proof fn lemma_ik_refl(a: InternalKey)
+    ensures ik_cmp(a, a) == 0
+{
+    lemma_lex_eq(a.user_key@, a.user_key@);
+}
+
+/// The internal-key order refines the user-key order.
+pub proof fn lemma_ik_user_order(a: InternalKey, b: InternalKey)
+    ensures
+        ik_lt(a, b) ==> lex_le(a.user_key@, b.user_key@),
+        lex_lt(a.user_key@, b.user_key@) ==> ik_lt(a, b),
+{
+}
